@@ -65,6 +65,23 @@ Theorem C01_peek_returns_next : forall h pw pr sched, wf_ring h ->
 Proof. exact all_peeked. Qed.
 Print Assumptions C01_peek_returns_next.
 
+(* the VALUES RETURNED by the reader's calls, in terms of the ghost logs: a qb_rb_chunk_read that returns a length
+   delivers exactly the oldest unconsumed published chunk (same length, same bytes) and consumes it in that step *)
+Theorem C01_read_returns_next_chunk : forall s s' lab v bytes,
+  Inv s -> step TR s = Some (s', (lab, Some (v, bytes))) -> 0 <= v -> is_read (rcur (g_r s)) = true ->
+  nth_error (g_pub s) (length (g_got s)) = Some bytes /\ v = zlen bytes /\
+  g_got s' = g_got s ++ [Some bytes] /\ g_pub s' = g_pub s.
+Proof. exact read_return_ok. Qed.
+Print Assumptions C01_read_returns_next_chunk.
+
+(* a qb_rb_chunk_peek that returns a positive length shows exactly that chunk and consumes nothing *)
+Theorem C01_peek_returns_next_chunk : forall s s' lab v bytes blk,
+  Inv s -> step TR s = Some (s', (lab, Some (v, bytes))) -> 0 < v -> rcur (g_r s) = RPeek blk -> r_prog (g_r s) <> [] ->
+  nth_error (g_pub s) (length (g_got s)) = Some bytes /\ v = zlen bytes /\
+  g_got s' = g_got s /\ g_pub s' = g_pub s.
+Proof. exact peek_return_ok. Qed.
+Print Assumptions C01_peek_returns_next_chunk.
+
 (* nothing is lost: when both threads are between calls and the pointers are equal, every published chunk has
    been consumed (same number, same bytes) *)
 Theorem C01_drain : forall h pw pr sched, wf_ring h ->
